@@ -233,8 +233,19 @@ class World:
         shutil.rmtree(d, ignore_errors=True)
         os.makedirs(d)
         self.inj.reset()
+        # some of the parameters may have a start value in the configuration (it wins over the stored one at every start; a
+        # reload at run time restores what is stored)
+        given, hcfg = {}, None
+        if rng.random() < 0.4:
+            for i, s_ in enumerate(specs):
+                if not s_.get('ro') and rng.random() < 0.5:
+                    given[f'p{i}'] = gen_dt.complete(s_['spec'], gen_dt.gen_valid(s_['spec'], rng, True), rng)
+            if given:
+                hcfg = {n: {'value': gen_dt.to_py(specs[int(n[1:])]['spec'], w_)} for n, w_ in given.items()}
+                case_base = dict(case_base, configured=given)
+                r.count('histories_with_configured_start_values')
         try:
-            m = self.mk(cls, d)
+            m = self.mk(cls, d, hcfg)
             m.writeInitParams()
         except Exception as e:
             r.violation('C17/startup-fails/fresh-directory', f'{type(e).__name__}: {e}'[:200], case_base)
@@ -296,13 +307,26 @@ class World:
                     r.count('history_damages')
                 elif op == 'reload':
                     ops.append(['reload'])
+                    stored = self.disk(d) if knows_disk else None
                     m.loadParameters()        # "may be called from a module when a hardware power down is detected"
                     knows_disk = True
                     r.count('history_reloads')
+                    if isinstance(stored, dict) and not m.writeDict:
+                        # the file was written by the module itself: every stored value is the current value again
+                        r.count('history_reloads_checked')
+                        bad = self.values_equal(m, stored, specs, only=set(stored))
+                        if bad:
+                            how = 'configured-parameter' if bad[0] in given else 'parameter'
+                            r.violation(f'C17/history/reload-does-not-restore/{how}', f'after loadParameters() {bad[0]} is {bad[1][0]!r}, the file holds {bad[1][1]!r}'[:250],
+                                        dict(case, stored=stored))
+                            return
                 else:
                     ops.append(['restart'])
                     before = self.snapshot(m) if knows_disk and self.disk(d) == self.snapshot(m) else None
-                    m = self.mk(cls, d)
+                    if before is not None:
+                        for n_, w_ in given.items():
+                            before[n_] = self.snapshot_one(specs[int(n_[1:])]['spec'], w_)
+                    m = self.mk(cls, d, hcfg)
                     if rng.random() < 0.3:
                         # the device is offline at this start: the start-up writes of the restored values fail (logged by
                         # writeInitParams); later changes are saved all the same
